@@ -591,8 +591,8 @@ class VM:
         elif op == OpCode.DIV:
             b = self.stack.pop()
             a = self.stack.pop()
+            a_num = self._to_number(a)  # left operand first
             b_num = self._to_number(b)
-            a_num = self._to_number(a)
             if math.isnan(a_num) or math.isnan(b_num):
                 self.stack.append(float("nan"))
             elif b_num == 0:
@@ -675,8 +675,9 @@ class VM:
         elif op == OpCode.SHL:
             b = self.stack.pop()
             a = self.stack.pop()
+            left = self._to_int32(a)  # left operand first
             shift = self._to_uint32(b) & 0x1F
-            result = self._to_int32(a) << shift
+            result = left << shift
             # Convert result back to signed 32-bit
             result = result & 0xFFFFFFFF
             if result >= 0x80000000:
@@ -686,14 +687,16 @@ class VM:
         elif op == OpCode.SHR:
             b = self.stack.pop()
             a = self.stack.pop()
+            left = self._to_int32(a)  # left operand first
             shift = self._to_uint32(b) & 0x1F
-            self.stack.append(self._to_int32(a) >> shift)
+            self.stack.append(left >> shift)
 
         elif op == OpCode.USHR:
             b = self.stack.pop()
             a = self.stack.pop()
+            left = self._to_uint32(a)  # left operand first
             shift = self._to_uint32(b) & 0x1F
-            result = self._to_uint32(a) >> shift
+            result = left >> shift
             self.stack.append(result)
 
         # Comparison
